@@ -32,7 +32,13 @@ func buildOverlay(repo, hdir string) (map[string][]byte, map[string]string, erro
 	return ov, paths, err
 }
 
-func runExtra(ld *interp.Loaded, name string, args []string, jobs int) (map[string]any, []string, error) {
+func runExtra(ld *interp.Loaded, name string, args []string, jobs int, native func(harness string, models []map[string]int64) ([]string, error)) (map[string]any, []string, error) {
+	switch name {
+	case "bch":
+		return runBCH(ld, args, jobs, func(models []map[string]int64) ([]string, error) {
+			return native("Harness_C09_bch_replay", models)
+		})
+	}
 	return nil, nil, fmt.Errorf("unknown extra job %q", name)
 }
 
